@@ -51,7 +51,12 @@ struct Other { 1: i32 x = 5, 2: optional double d = 1.5, 3: optional binary bin 
 typedef i32 T
 struct S { 1: T f, 2: optional T g, 3: list<T> l, 4: map<T, T> m }
 `
+	throws0 := `namespace go throws0
+exception E { 1: string msg }
+service S { i64 put() throws (0: E e) }
+`
 	return []Prog{
+		{Name: "corpus-throws-id-0", Files: map[string]string{"t0.thrift": throws0}, Main: "t0.thrift"},
 		{Name: "corpus-typedef-of-base", Files: map[string]string{"t.thrift": talias}, Main: "t.thrift"},
 		{Name: "corpus-naming", Files: map[string]string{"main.thrift": main, "base.thrift": base, "sub/base.thrift": sub}, Main: "main.thrift"},
 	}
